@@ -32,6 +32,50 @@ theorem full_false_E : ¬ Refines wP wInit 0 hE := witness_E_not_refines
 /-- the counterexamples are well-formed projects (the hypotheses of the full statement hold) -/
 example : WF wP wInit ∧ WF wP wInit12 := ⟨wWF, wWF12⟩
 
+/-- **Partial theorem, proved for every well-formed project and every history inside `H10`**
+(`H10 = sessionRegion … = none`: the decidable monitor `regionOf` never fires — i.e. the
+history never (F10) removes a directory holding an item with external dependencies or a
+depended-upon file, (F11) runs `process` with queued deletions and nothing pending,
+(F11b) re-creates a removed source before its deletion ran, (F12) creates a file that changes
+the result of a finished item, (F13) changes the configuration without changing its hash,
+(E) lets an item fail over an existing output, (X) leaves the watcher protocol):
+no step panics or hangs and after the closing `process` the output folder equals the
+from-scratch run (`freshOut`): regenerated outputs, outputs of removed sources deleted, foreign
+files kept. Proof: invariant `Inv`/`Good` (`Lemmas.lean`) preserved by every operation
+(`runOps_good`), established by the first run (`start_settled`), and `settled_final`.
+Nothing is restricted besides `H10` and `WF` (bundling included: `T` may depend on its
+reported dependencies). -/
+theorem worker_refines_fresh_partial (P : Params) (init : Fs) (cfg : Cfg) (h : List Op)
+    (hWF : WF P init) (hH : H10 P defaultFuel init cfg h = true) : Refines P init cfg h := by
+  obtain ⟨st0, hs, hset, hcfg⟩ := start_settled cfg hWF
+  have hreg : firstRegion P 1 st0 cfg (h ++ [.process]) = none := by
+    have : sessionRegion P 1 init cfg h = none := by
+      unfold H10 at hH
+      cases hsr : sessionRegion P defaultFuel init cfg h with
+      | none => exact hsr
+      | some r => rw [hsr] at hH; cases hH
+    unfold sessionRegion at this
+    rw [hs] at this
+    exact this
+  have hG : Good P init cfg st0 := by
+    have := hset.good
+    rw [hcfg] at this
+    exact this
+  obtain ⟨st', last', hr, _, hfin⟩ := runOps_good hWF (h ++ [.process]) st0 cfg hG hreg
+  have hsettled := hfin (by simp)
+  unfold Refines run
+  show (match runOps P 1 (start P 1 init cfg) (h ++ [.process]) with
+    | .ok st => ∀ q, startsWith q P.output = true → alookup st.fs q = freshOut P st.cfg init st.fs q
+    | _ => False)
+  rw [hs, hr]
+  exact settled_final hWF hsettled
+
+/-- non-vacuity: a ten-operation history (edits of a source and of a bundle dependency, a
+file and a directory removal, additions, a configuration change, intermediate passes) lies
+inside `H10`, so the theorem applies to it -/
+example : Refines wP wInit 0 hGood :=
+  worker_refines_fresh_partial wP wInit 0 hGood wWF hGood_inside
+
 /-- `no_loop`: `process` terminates on EVERY state — with one unit of fuel the work loop never
 reports `hang`; the progress argument is `passNodes_doneCount`: a pass finishes every
 pending item, so `done_count == total_not_done` after the first pass. (Relies on the
